@@ -219,6 +219,24 @@ def evaluate_skiafail(case):
                     sk2.simplify(fix_winding=True)
                 except pathops.PathOpsError:
                     variants.append(dstr + " " + sq)
+            # the failing contour as a *later* operand of a binary operation: if Skia's op() itself gives up there,
+            # the wrapper must not hand back a path computed without that operand
+            first_op = "M-2,-3 L22,-3 L22,9 L-2,9 Z"
+            for opname, opc in (("union", pathops.PathOp.UNION), ("intersection", pathops.PathOp.INTERSECTION), ("difference", pathops.PathOp.DIFFERENCE)):
+                a_ = pathops.Path(fillType=pathops.FillType.WINDING)
+                a_.moveTo(-2, -3); a_.lineTo(22, -3); a_.lineTo(22, 9); a_.lineTo(-2, 9); a_.close()
+                b_ = pathops.Path(fillType=pathops.FillType.WINDING)
+                b_.moveTo(*p0); b_.cubicTo(*a, *b, *p1); b_.cubicTo(*c, *d, *p0); b_.close()
+                try:
+                    pathops.op(a_, b_, opc, fix_winding=True)
+                    continue
+                except pathops.PathOpsError:
+                    pass
+                o, why, np_ = judge("pathops", opname, [first_op, dstr], ["nonzero", "nonzero"], case["seed"], True)
+                outs["skiafail-op/" + o] += 1
+                nts.add(core.h64(dstr + opname))
+                if why and len(viols) < 6:
+                    viols.append({"sig": {"kind": "wrong-region-where-skia-fails", "api": "pathops", "op": opname}, "case": {"fam": "one", "api": "pathops", "op": opname, "ds": [first_op, dstr], "rules": ["nonzero", "nonzero"], "deg": True}, "detail": {"why": f"Skia's op() raises PathOpsError for ({first_op!r}, {dstr!r}); svg_pathops.{opname} returned a path instead: {why}"}})
             for dstr in variants:
               for api in ("pathops", "path"):
                 for rule in RULES:
